@@ -68,6 +68,9 @@ class RunState:
         self.exc = None
         self.inputs = {}
         self.stub_calls = {}
+        self.stub_assumes = {}
+        self.locals = {}
+        self.reads = []
 
 
 class Verifier:
@@ -133,14 +136,60 @@ class Verifier:
 
         @b('requires')
         def _requires(I_, a, k):
-            if self.state.phase == 'pre':
+            ph = self.state.phase
+            if ph == 'pre':
                 I.assume(zbool(I.truth_term(a[0])))
+            elif ph == 'call-pre':
+                st = self.state
+                st.req_i = getattr(st, 'req_i', 0) + 1
+                self.check_goal(f'pre:{st.callee}#{st.site}.{st.req_i}', I.truth_term(a[0]), owner=st.owner)
 
         @b('ensures')
         def _ensures(I_, a, k):
-            if self.state.phase == 'post':
+            ph = self.state.phase
+            if ph == 'post':
                 name, thunk = a[0], a[1]
                 self.check_clause(name, thunk)
+            elif ph == 'call-post':
+                if k.get('symbolic_only') is None or True:
+                    I.assume(zbool(I.truth_term(I.call(a[1], [], {}))))
+
+        @b('ensures_locals')
+        def _ensures_locals(I_, a, k):
+            # postcondition over the local variables of the target at its return (symbolic only)
+            if self.state.phase != 'post' or self.state.exc is not None:
+                return
+            name, fn = a[0], a[1]
+            names = [p.arg for p in fn.node.args.args]
+            loc = self.state.locals
+            missing = [n for n in names if n not in loc]
+            if missing:
+                raise Unsupported(f'ensures_locals: no local named {missing}')
+            self.check_clause(name, Builtin('locals-clause', lambda I2, a2, k2: I.call(fn, [], {n: loc[n] for n in names})))
+
+        @b('reads_all')
+        def _reads_all(I_, a, k):
+            # every cell of `grid` whose content was read by the target satisfies the condition
+            grid, fn = a[0], a[1]
+            root = getattr(grid.fields['objects'], 'root', None)
+            P = I.load_module('gym_gridverse.geometry').ns['Position']
+            acc = True
+            for parent, i, j, guard in self.state.reads[I.reads_from:]:
+                if getattr(parent, 'root', None) is not root or root is None:
+                    continue
+                t = I.truth_term(I.call(fn, [I.instantiate(P, [i, j], {})], {}))
+                if guard and t is not True:
+                    t = z3.Implies(z3.And(*guard), zbool(t))
+                if t is False:
+                    return False
+                if t is not True:
+                    acc = t if acc is True else z3.And(acc, t)
+            return acc
+
+        @b('stub_assume')
+        def _stub_assume(I_, a, k):
+            if self.state.phase == 'pre':
+                self.state.stub_assumes.setdefault(a[0], []).append(a[1])
 
         @b('ensures_native')
         def _ensures_native(I_, a, k):
@@ -159,7 +208,7 @@ class Verifier:
         @b('old')
         def _old(I_, a, k):
             st = self.state
-            if st.phase == 'pre':
+            if st.phase in ('pre', 'call-pre'):
                 v = snapshot(I, a[0])
                 st.olds.append(v)
                 return v
@@ -206,6 +255,10 @@ class Verifier:
         @b('exists_cells')
         def _exists_cells(I_, a, k):
             return self.quant_cells(a[0], a[1], False)
+
+        @b('symbolic')
+        def _symbolic(I_, a, k):
+            return True
 
         @b('contract_input')
         def _contract_input(I_, a, k):
@@ -420,7 +473,7 @@ class Verifier:
                 ob.detail = 'solver returned unknown'
                 ob.cex = None
 
-    def check_goal(self, name, goal):
+    def check_goal(self, name, goal, owner=None):
         """obligation with an already evaluated goal (loop invariants, call preconditions)"""
         ob = self.results.setdefault(self.oid(name), Obligation(self.oid(name)))
         ob.paths += 1
@@ -598,8 +651,51 @@ class Verifier:
                 tok = si.value
             self.factory.seq += 1
             calls.append({'args': list(args), 'kwargs': dict(kwargs), 'result': tok, 'seq': self.factory.seq})
+            for fn in st.stub_assumes.get(sname, []):
+                I.assume(zbool(I.truth_term(I.call(fn, [tok] + list(args), dict(kwargs)))))
             return tok
         return hook
+
+    def modular_call(self, mspec, f, args, kwargs):
+        """call site of a function with a modular contract: check its requires, havoc what it
+        modifies, assume its ensures (the callee's body is not looked at)"""
+        I = self.I
+        node = f.node
+        params = [p.arg for p in node.args.posonlyargs + node.args.args]
+        byname = {}
+        for i, p in enumerate(params):
+            if i < len(args):
+                byname[p] = args[i]
+            elif p in kwargs:
+                byname[p] = kwargs[p]
+            else:
+                di = i - (len(params) - len(f.defaults))
+                byname[p] = f.defaults[di]
+        for i, p in enumerate(node.args.kwonlyargs):
+            byname[p.arg] = kwargs[p.arg] if p.arg in kwargs else f.kw_defaults[i]
+        outer = self.state
+        st = RunState()
+        st.inputs = outer.inputs
+        st.callee = mspec.name
+        outer.site_counter = getattr(outer, 'site_counter', 0) + 1
+        st.site = outer.site_counter
+        st.owner = outer
+        self.state = st
+        saved_log, I.read_log = I.read_log, None
+        try:
+            st.phase = 'call-pre'
+            I.call(mspec.fn, [], {k_: v for k_, v in byname.items() if k_ in mspec.args})
+            for name in mspec.opts.get('modifies', []):
+                I.havoc_value(byname[name], name)
+            ret = mspec.opts.get('returns')
+            st.result = self.factory.make(ret, f'{mspec.name}_ret').value if ret else None
+            st.phase = 'call-post'
+            st.old_i = 0
+            I.call(mspec.fn, [], {k_: v for k_, v in byname.items() if k_ in mspec.args})
+            return st.result
+        finally:
+            self.state = outer
+            I.read_log = saved_log
 
     # ------------------------------------------------------------------ running
     def verify(self, spec):
@@ -646,14 +742,28 @@ class Verifier:
             if isinstance(stubs, (list, tuple)):
                 stubs = {s_: None for s_ in stubs}
             for sname, ret in stubs.items():
+                if isinstance(ret, (list, tuple)) and ret and ret[0] == 'native-real':
+                    ret = ret[1]
                 hooks[self.resolve_target(sname)] = self.make_stub(st, sname, ret)
+            for ms in self.contracts:
+                if ms.opts.get('modular') and ms.target:
+                    fm = self.resolve_target(ms.target)
+                    if fm not in hooks:
+                        hooks[fm] = (lambda I_, f_, a_, k_, ms=ms: self.modular_call(ms, f_, a_, k_))
             I.contract_hooks = hooks
+            I.read_log = st.reads
+            I.read_base = len(I.pc)
+            I.reads_from = 0
             try:
-                st.result = I.call(target, args, kwargs)
+                if isinstance(target, FunctionModel):
+                    st.result = I.call_function(target, args, kwargs, skip_hook=True, capture=st.locals)
+                else:
+                    st.result = I.call(target, args, kwargs)
             except PyRaise as e:
                 st.exc = e.exc
             finally:
                 I.contract_hooks = {}
+                I.read_log = None
             st.phase = 'post'
             st.old_i = 0
             if I.check_sat() != z3.unsat:
